@@ -861,6 +861,17 @@ def _shift(val, amt, left):
             return _shift(v, k, left)
     if _real_isinstance(v, _real_int) and v == 0:
         return 0
+    if left and (k.hi is None or k.hi > core.COST_LIMIT_BITS):
+        # cost obligation: a left shift by a symbolic amount builds an integer of that many bits.
+        # Decide (solver) whether the path lets the amount exceed the limit; if so the path ends
+        # as a cost blow-up (largest class first, so that the witness is one the real package can
+        # be seen to choke on)
+        for thr in (1 << 40, 1 << 34, core.COST_LIMIT_BITS):
+            if _real_bool(k > thr):
+                raise core.PathCost(f"left shift by a symbolic amount that can exceed 2**{thr.bit_length() - 1} bits")
+        k = norm(k)
+        if _real_isinstance(k, _real_int):
+            return _shift(v, k, left)
     if k.hi is None:
         raise Unsupported("shift by an unbounded symbolic amount")
     lo, hi = max(0, k.lo or 0), k.hi
